@@ -1909,7 +1909,7 @@ class _PPTableImpl:
                 yield tl.ch_text
             else:
                 yield self._make_table_line(
-                    self._ppt_fmt.repr_structure.make_record_ch_chunks_all(tl, cp),
+                    repr_structure.make_record_ch_chunks_all(tl, cp),
                     sep)
 
         # 6. final border line
